@@ -252,3 +252,44 @@ RULES.append(r5_xarray_stack)
 
 from .common import lazy  # noqa: E402
 RULES.append(lazy("C13", "r4_batch_transform", "a batch holding one node is passed through, not reduced over its internal axes"))
+
+
+def r6_stack_axis_provenance(ctx):
+    """C15.R6: the array-API `stack` broadcasts its inputs to a common shape and stacks them along the caller's `axis`, like numpy.stack on
+    the broadcast arrays.  The position handed to the library must be the caller's `axis` itself, or derived from the *broadcast* result:
+    anything computed from one particular input (`args[0].ndim`) is wrong as soon as that input has a lower rank than another one — a
+    negative axis then lands one position off, and a valid top axis is refused.  No exit of the function may depend on a single input."""
+    repo = ctx.repo
+    fi = repo.func(f"{BK}.arrayapi.ArrayAPIBackend.stack")
+    ctx.analysed(fi.qual)
+    ps = Interp(repo).explore(fi)
+    ctx.evals(len(ps))
+    n = 0
+    for p in ps:
+        single = [d for d in p.decisions if "args[" in d.key]
+        if p.exit[0] == "raise" and single:
+            ctx.violation("C15.R6", fi.qual, loc(fi), "no exit depends on one particular input",
+                          f"stack raises {vkey(p.exit[1])[:90]} depending on {single[0].key[:80]}: the inputs are broadcast first, so the rank of the result is the largest "
+                          f"rank among them, not that of the first — stacking a (3,) array with a (2, 3) one along the valid axis 2 is refused")
+            return
+        if p.exit[0] != "return":
+            continue
+        n += 1
+        v = p.exit[1]
+        if not (isinstance(v, App) and v.fname.endswith(".stack")):
+            ctx.undecided("C15.R6", loc(fi), f"stack returns {vkey(v)[:100]}")
+            continue
+        ax = v.kw("axis", v.args[1] if len(v.args) > 1 else None)
+        arr = v.args[0] if v.args else None
+        if not (isinstance(arr, App) and "broadcast_arrays" in arr.fname):
+            ctx.violation("C15.R6", fi.qual, loc(fi), "inputs broadcast before stacking", f"the library's stack receives {vkey(arr)[:100]} instead of the broadcast inputs")
+        elif vkey(ax) != "axis" and ("args[" in vkey(ax) or "axis" not in vkey(ax)):
+            ctx.violation("C15.R6", fi.qual, loc(fi), "axis handed on as given",
+                          f"the new axis handed to the library is {vkey(ax)[:100]}, computed from one particular input: with inputs of different rank (broadcast (3,) with (2, 3)) "
+                          f"axis=-1 lands at position 1 instead of 2, so the stacked array has the wrong layout although its shape may look right")
+        else:
+            ctx.ok("C15.R6", loc(fi), f"stack: library called with the broadcast inputs and axis = {vkey(ax)[:60]}")
+    ctx.floor("C15.R6.paths", n, 1)
+
+
+RULES.append(r6_stack_axis_provenance)
